@@ -14,7 +14,7 @@ if ! cmp -s _CoqProject.new _CoqProject 2>/dev/null; then mv _CoqProject.new _Co
 ulimit -s unlimited 2>/dev/null || true
 # -k: one property's broken file must not stop the others from building; every check verifies that the
 # .vo files of ITS dependency closure are present and newer than their sources (harness/common.py).
-timeout 3000 make -k -j16 > build.log 2>&1
-rc=$?
+rc=0
+timeout 3000 make -k -j16 > build.log 2>&1 || rc=$?
 if [ $rc -ne 0 ]; then grep -B2 -A12 "^Error\|Error:" build.log | head -60; fi
 exit 0
